@@ -333,11 +333,23 @@ def pmap(acc, fn, nshards=None, extra=()):
         with ctx.Pool(min(NPROC, nshards)) as pool:
             # a stage that makes no end (workers blocked in C on a leaked lock, say) is reported
             # as a harness error - inconclusive, never a violation and never an endless run
-            try:
-                results = pool.map_async(_shard_entry, jobs, chunksize=1).get(timeout=STAGE_TIMEOUT)
-            except multiprocessing.TimeoutError:
-                pool.terminate()
-                raise HarnessError(f"{acc.prop}: a stage ({getattr(fn, '__name__', fn)}) did not finish within {STAGE_TIMEOUT}s") from None
+            # and so is a stage that lost a worker (killed by the kernel for using too much memory,
+            # say): the pool silently replaces the worker and its shard would never be delivered
+            pending = pool.map_async(_shard_entry, jobs, chunksize=1)
+            workers = {p.pid for p in pool._pool}  # pylint: disable=protected-access
+            t0 = time.time()
+            while True:
+                pending.wait(2.0)
+                if pending.ready():
+                    results = pending.get()
+                    break
+                lost = workers - {p.pid for p in pool._pool if p.is_alive()}  # pylint: disable=protected-access
+                if lost:
+                    pool.terminate()
+                    raise HarnessError(f"{acc.prop}: a worker of stage {getattr(fn, '__name__', fn)} died (pid {sorted(lost)}; killed by a signal - out of memory?)")
+                if time.time() - t0 > STAGE_TIMEOUT:
+                    pool.terminate()
+                    raise HarnessError(f"{acc.prop}: a stage ({getattr(fn, '__name__', fn)}) did not finish within {STAGE_TIMEOUT}s")
     for status, val in results:
         if status != "ok":
             raise HarnessError(val)
